@@ -372,7 +372,9 @@ def check_table_index(chk, m, prog):
                         chk.unknown("D4.table-index", "%s %s" % (f.name, e.inst.loc), "table load not of the form global[index]", e.inst.loc)
                         continue
                     idx, stride = e.ptr[3][0]
-                    count = (g["size"] - e.ptr[2]) // stride
+                    # element i is read at off + i*stride .. + width: inside the object for i <= (size - off - width) / stride
+                    width = getattr(e, "size", None) or 1
+                    count = (g["size"] - e.ptr[2] - width) // stride + 1
                     core = paths.strip_casts(idx)
                     lo, hi, unsigned_hi = None, None, None
                     for c, taken, inst in p.conds:
